@@ -72,6 +72,7 @@ type AnnoOpts struct {
 	Isoforms     bool // allow a second CDS with the same name, outer bounds and strand but another exon junction
 	SamConflicts bool // (SAM form) allow an extra supplementary record whose bases may disagree with the others
 	NoStop       bool // allow CDS features that do not end in a stop codon (partial CDS, polyprotein fragments)
+	QuoteNames   bool // (used by the case builder) a GFF3 feature name may be written with double quotes around it
 	DupNames     bool // allow two single-row CDS that share a gene name, and top-level GFF3 rows without an ID
 	ExactQueries int  // if > 0, the number of query sequences (FASTA form)
 	AmbigRef     bool // allow IUPAC codes inside coding regions of the reference where every expansion keeps the protein
